@@ -411,12 +411,36 @@ def render_reads_only(ctx, pkg, rule):
         ctx.ok(rule, "RenderCommand.handle renders the network as read", (RENDER_, h.lineno), f"no edit of {sorted(nets)} between Network(..) and the rendering")
 
 
+def _refusal_propagates(ctx, pkg):
+    """A refused type stays an ERROR of the rendering: no `try` around a rateexpr(..) call in the renderer swallows the exception and goes
+    on with a substitute (every handler of such a try must end by raising).  Positive evidence only: a try statement that is there."""
+    TL = "naunet/templateloader.py"
+    ncalls = 0
+    units = [(ci.name, mname, fn) for ci in pkg.classes.values() if ci.file == TL for mname, fn in ci.methods.items()] + \
+        [("", name, fn) for (file, name), fn in pkg.functions.items() if file == TL]
+    for cname, mname, fn in units:
+        if True:
+            calls = [c for c in ast.walk(fn) if isinstance(c, ast.Call) and isinstance(c.func, ast.Attribute) and c.func.attr == "rateexpr"]
+            ncalls += len(calls)
+            for t in ast.walk(fn):
+                if not isinstance(t, ast.Try) or not any(c is x for st in t.body for x in ast.walk(st) for c in calls):
+                    continue
+                for h in t.handlers:
+                    reraises = bool(h.body) and isinstance(h.body[-1], ast.Raise)
+                    ctx.check(reraises, "R8", f"{cname}.{mname}:rateexpr refusal handled:{ast.unparse(h.type) if h.type else 'bare'}", (TL, h.lineno),
+                              "the handler re-raises" if reraises else
+                              "an exception raised by rateexpr(..) (a reaction type the class refuses) is caught and the rendering goes on with a substitute: "
+                              "the exported type is neither given its law nor refused with an error", expected="no handler / re-raise", found=ast.unparse(h)[:120])
+    ctx.floor("R8", "rateexpr call sites in the renderer", ncalls, 1, (TL, 0))
+
+
 def _r6(ctx, pkg):
     render_reads_only(ctx, pkg, "R7")
     # "... or is refused with an error": the renderer hands rateexpr()'s refusal on -- the expressions it emits are exactly
     # reac.rateexpr(..) of every reaction, nothing catches and substitutes (shared with C06.R1)
     from .c06 import _r1 as assignment_rule
     ctx.absorb(assignment_rule, "R8")
+    _refusal_propagates(ctx, pkg)
     fn = pkg.method("Network", "export")
     ctx.saw(NET, "Network.export")
     src = ast.unparse(fn)
@@ -514,4 +538,46 @@ BENIGN = [
     {"name": "export-write-in-else-of-stop", "file": NET, "old": '        if os.path.exists(reaction_file) and not overwrite:\n            logger.warning("Reaction file exists! Stop exporting!")\n            return\n\n        self.write(reaction_file, "naunet")\n',
      "new": '        if os.path.exists(reaction_file) and not overwrite:\n            logger.warning("Reaction file exists! Stop exporting!")\n            return\n        else:\n            self.write(reaction_file, "naunet")\n'},
     {"name": "reader-line-rstripped", "file": RFILE, "old": 'idx, *rps, a, b, c, lt, ut, rtype, source = react_string.split(",")', "new": 'idx, *rps, a, b, c, lt, ut, rtype, source = react_string.rstrip("\\n").split(",")'},
+]
+
+# ---- spellings accepted since the round-4 benign sets (each also as a seeded defect written in the new spelling) ----
+_RD_OLD = ('        self.reactants = [\n            self._create_species(r.strip())\n            for r in rps[0:3]\n            if self._create_species(r.strip())\n        ]\n'
+           '        self.products = [\n            self._create_species(p.strip())\n            for p in rps[3:8]\n            if self._create_species(p.strip())\n        ]\n')
+
+
+def _rd_loop(strip, hi):
+    return ('        def named(cols):\n            out = []\n            for col in cols:\n                nm = col' + strip + '\n                if self._create_species(nm):\n'
+            '                    out.append(self._create_species(nm))\n            return out\n\n        self.reactants = named(rps[0:3])\n        self.products = named(rps[3:' + hi + '])\n')
+
+
+_CF_OLD = ('        binding = {s.name: s.eb for s in network.species if s.is_surface}\n        yields = {s.name: s.photon_yield for s in network.species if s.is_surface}\n')
+
+
+def _cf_loop(extra):
+    return ('        binding = {}\n        yields = {}\n        for sp in network.species:\n            if not sp.is_surface' + extra + ':\n                continue\n'
+            '            binding[sp.name] = sp.eb\n            yields[sp.name] = sp.photon_yield\n')
+
+
+_WR_OLD = ('            verbose = ",".join(\n                [\n                    f"{self.idxfromfile:<5}",\n                    *rnames,\n                    *pnames,\n'
+           '                    f"{self.alpha:10.3e}",\n                    f"{self.beta:10.3e}",\n                    f"{self.gamma:10.3e}",\n                    f"{self.temp_min:9.2f}",\n'
+           '                    f"{self.temp_max:9.2f}",\n                    f"{self.reaction_type:>4}",\n                    f"{self.source:>8}",\n                ]\n            )\n\n        elif form == "kida":')
+_WR_NEW = ('            tail = [format(getattr(self, nm), spec) for nm, spec in _TAIL]\n            verbose = format(self.idxfromfile, "<5") + "," + ",".join(rnames + pnames + tail)\n\n        elif form == "kida":')
+_WR_CLS = 'class Reaction(Component):\n    """Class of chemical reactions"""\n'
+
+
+def _wr_table(second, third):
+    return ('_TAIL = (("alpha", "10.3e"), ("' + second + '", "10.3e"), ("' + third + '", "10.3e"), ("temp_min", "9.2f"), ("temp_max", "9.2f"),\n'
+            '         ("reaction_type", ">4"), ("source", ">8"))\n\n\n') + _WR_CLS
+
+
+BENIGN += [
+    {"name": "reader-species-by-local-loop-helper", "file": RFILE, "old": _RD_OLD, "new": _rd_loop(".strip()", "8")},
+    {"name": "config-tables-by-one-loop", "file": CONF, "old": _CF_OLD, "new": _cf_loop("")},
+    {"name": "writer-trailing-columns-table-driven", "edits": [{"file": RFILE, "old": _WR_OLD, "new": _WR_NEW}, {"file": RFILE, "old": _WR_CLS, "new": _wr_table("beta", "gamma")}]},
+]
+MUTANTS += [
+    {"name": "reader-loop-helper-no-strip", "file": RFILE, "old": _RD_OLD, "new": _rd_loop("", "8"), "rules": ["R2"]},
+    {"name": "reader-loop-helper-short-slice", "file": RFILE, "old": _RD_OLD, "new": _rd_loop(".strip()", "7"), "rules": ["R1"]},
+    {"name": "config-loop-user-values-only", "file": CONF, "old": _CF_OLD, "new": _cf_loop(" or not sp._binding_energy"), "rules": ["R6"]},
+    {"name": "writer-table-beta-gamma-swapped", "edits": [{"file": RFILE, "old": _WR_OLD, "new": _WR_NEW}, {"file": RFILE, "old": _WR_CLS, "new": _wr_table("gamma", "beta")}], "rules": ["R1"]},
 ]
